@@ -26,11 +26,12 @@ import c15_translate as tr
 THEOREMS = ["C15_scalar_broadcasts", "C15_sequence_zips", "C15_wrong_length_raises_and_changes_nothing",
             "C15_get_returns_members_in_order", "C15_assignment_touches_nothing_else",
             "C15_table_entries_satisfy_the_property", "C15_canonical_tables_well_formed",
-            "C15_add_keeps_order_and_parent", "C15_type_guard", "C15_index_lookup", "C15_slice_lookup_partial",
+            "C15_add_keeps_order_and_parent", "C15_type_guard", "C15_index_lookup", "C15_slice_lookup",
             "C15_unique_name_lookup", "C15_history_invariant",
             "C15_membership_changes_only_by_add_or_member_list", "C15_observe_once",
             "C15_observe_each_member_exactly_once_in_histories", "C15_member_refusal_touches_nothing_else",
-            "C15_direct_member_change_is_read_back"]
+            "C15_direct_member_change_is_read_back", "C15_iteration_yields_members",
+            "C15_constructor_adds_in_order", "C15_member_list_assignment"]
 
 HEADER = ("Require Import Cherab.Common.Qx.\nFrom Coq Require Import String.\n"
           "Require Import Cherab.Model.C15_Groups Cherab.Model.C15_Table Cherab.Model.C15_Check.\n"
@@ -837,7 +838,7 @@ class Case:
         def fn():
             xs = list(self.g) if route in ("iter", "getitem-iteration") else list(getattr(self.g, route))
             return "RMems [%s]" % "; ".join(str(self.ids[id(o)]) for o in xs)
-        self.do("OMembers", "member list via %s" % route, fn)
+        self.do("OIter" if route in ("iter", "getitem-iteration") else "OMembers", "member list via %s" % route, fn)
 
     def op_get(self, attr=None):
         rng = self.rng
@@ -873,8 +874,13 @@ class Case:
         elif r < 0.6:
             lo = rng.choice([None] + list(range(-n - 2, n + 3)))
             hi = rng.choice([None] + list(range(-n - 2, n + 3)))
-            k, key = "KSlice %s %s" % (opt(lo), opt(hi)), builtins.slice(lo, hi)
-            self.stat("key:slice")
+            step = rng.choice([None, None, 1, 2, 3, -1, -1, -2, -3, 0, n + 1, -n - 1])
+            if step is None:
+                k, key = "KSlice %s %s" % (opt(lo), opt(hi)), builtins.slice(lo, hi)
+                self.stat("key:slice")
+            else:
+                k, key = "KSliceStep %s %s %s" % (opt(lo), opt(hi), zlit(step)), builtins.slice(lo, hi, step)
+                self.stat("key:slice-step")
         elif r < 0.92:
             s = rng.choice(NAMES)
             k, key = "KStr %s" % coq_string(s), s
@@ -1035,6 +1041,7 @@ def run(ctx):
     table = tr.extract(impl.classes)
     n_entries = sum(len(rows) for _, rows in table)
     defs = tr.to_coq(table)
+    mtable = tr.extract_methods(impl.classes)
     acc = impl.accept_matrix()
     acc_txt = "Definition accept_matrix : list (string * list Z) := [\n  %s].\n" % ";\n  ".join(
         "(%s, [%s])" % (coq_string(c), "; ".join(map(str, ts))) for c, ts in acc)
@@ -1045,13 +1052,17 @@ def run(ctx):
                        "Lemma extracted_is_canonical : canon_agrees extracted = true.\nProof. vm_compute. reflexivity. Qed.\n",
         "Tie_accept.v": HEADER + acc_txt + "Eval vm_compute in (accept_diff accept_matrix).\n"
                         "Lemma accept_is_canonical : accept_agrees accept_matrix = true.\nProof. vm_compute. reflexivity. Qed.\n",
+        "Tie_methods.v": HEADER + tr.methods_to_coq(mtable) + "Eval vm_compute in (methods_diff extracted_methods).\n"
+                         "Lemma methods_are_canonical : methods_agree extracted_methods = true.\nProof. vm_compute. reflexivity. Qed.\n",
         "attrs.v": HEADER + "Eval vm_compute in (map (fun c => (c_name c, attrs_of c)) canonical).\n",
     }
     paths = {k: ctx.write_gen(k, v) for k, v in ties.items()}
     res = coqc_many(list(paths.values()), timeout=300)
     tie_names = {"Tie_wf.v": "Gen tie: every extracted descriptor is well formed (%d entries of %d classes)" % (n_entries, len(table)),
                  "Tie_canon.v": "Gen tie: extracted table = hand-written table the model runs with",
-                 "Tie_accept.v": "Gen tie: isinstance matrix of the real classes = c_accept of the model"}
+                 "Tie_accept.v": "Gen tie: isinstance matrix of the real classes = c_accept of the model",
+                 "Tie_methods.v": "Gen tie: bodies of __init__/__getitem__/__len__/__iter__/add_*/observe of the %d classes = the bodies "
+                                  "the model mirrors (%d methods)" % (len(mtable), sum(1 for _, r in mtable for _, sh in r if sh != "MAbsent"))}
     tie_fail = {}
     for k, title in tie_names.items():
         ok, out = res[paths[k]]
@@ -1183,8 +1194,7 @@ def run(ctx):
                           "list and tuple subclasses, numpy-integer and bool keys, names differing by case, empty name",
                           "second-order routes: constructor, add_sight_line, sight_lines, iteration, member-list getters, "
                           "connect_pipelines"],
-        "partial": ["slices are modelled and compared for step 1 only (the search also tries steps 2 and -1 on the implementation)",
-                    "pipelines assignment on the deprecated spectroscopic groups is exercised by the search only (their "
+        "partial": [                    "pipelines assignment on the deprecated spectroscopic groups is exercised by the search only (their "
                     "display_progress/accumulate live inside the pipeline objects, the member store model does not couple them)",
                     "member observers' own validation (raysect) is outside the model; BolometerIRVB members are not generated"],
     })
